@@ -73,8 +73,9 @@ def main(argv=None):
                 problems.append('shard %d hit the wall-clock watchdog (%ds)' % (k, timeout))
                 continue
             if p.returncode != 0 or not os.path.exists(out):
-                tail = (text or b'').decode('utf8', 'replace')[-1500:]
-                problems.append('shard %d exited %s: %s' % (k, p.returncode, tail))
+                lines = (text or b'').decode('utf8', 'replace').strip().splitlines()
+                sys.stderr.write('--- shard %d exited %s ---\n%s\n' % (k, p.returncode, '\n'.join(lines[-25:])))
+                problems.append('shard crashed (%s): %s' % (p.returncode, lines[-1][:200] if lines else 'no output'))
                 continue
             with open(out) as f:
                 dumps.append(json.load(f))
@@ -86,7 +87,8 @@ def main(argv=None):
 
     merged = core.merge(dumps)
     for pr in problems:
-        merged['inconclusive'].append(pr)
+        if pr not in merged['inconclusive']:
+            merged['inconclusive'].append(pr)
     code = core.conclude(mod, merged, args.tier, seed, time.time() - t0, write_evidence=not args.no_evidence)
     return code
 
